@@ -53,8 +53,9 @@ VARIABLES phase, nsolves, nrefills,
 vars == <<phase, nsolves, nrefills, ver, cur, objP0, objHist, localHist, cache, usedP0, usedVer, iters, ret>>
 
 Min(a, b) == IF a < b THEN a ELSE b
+\* @type: Seq(Int);
 Widths == <<W1, W2>>
-Buffers == 1..Len(Widths)
+Buffers == 1..2
 NoRet == [histLen |-> 0, iters |-> 0, p0 |-> 0, width |-> 0, ver |-> 0, cur |-> 0]
 
 Init == /\ phase = "idle" /\ nsolves = 0 /\ nrefills = 0
